@@ -6,14 +6,14 @@ import signal
 
 STRING_VARS = {
     "os_name": ["posix", "nt", "pos", "posix nt", "", "java"],
-    "sys_platform": ["linux", "linux2", "win32", "darwin", "win", "linux darwin"],
+    "sys_platform": ["linux", "linux2", "win32", "darwin", "win", "linux darwin", "beos", "aix"],
     "platform_machine": ["x86_64", "arm64", "x86", "x86_64 arm64"],
     "implementation_name": ["cpython", "pypy", "py"],
 }
 STRING_OPS = ["==", "!=", "in", "not in"]
 ENV_STRINGS = {
     "os_name": ["posix", "nt", "pos", "java", ""],
-    "sys_platform": ["linux", "linux2", "win32", "darwin", "win"],
+    "sys_platform": ["linux", "linux2", "win32", "darwin", "win", "beos"],
     "platform_machine": ["x86_64", "arm64", "x86"],
     "implementation_name": ["cpython", "pypy"],
 }
@@ -54,6 +54,20 @@ def atoms(reversed_too=True):
     for op in ("==", "!="):
         for v in EXTRA_VALUES:
             out.append(f'extra {op} "{v}"')
+    return out
+
+
+def group_texts():
+    """same-variable ==-groups / !=-groups of 2-3 values with every overlap pattern (0, 1, 2 common values), and their mixes"""
+    out = []
+    vals = ["linux", "win32", "darwin", "beos", "aix"]
+    groups = [vals[0:2], vals[1:3], vals[2:4], vals[0:3], vals[1:4], vals[3:5], [vals[0], vals[2]], [vals[0], vals[4]]]
+    for g in groups:
+        out.append(" and ".join(f'sys_platform != "{v}"' for v in g))
+        out.append(" or ".join(f'sys_platform == "{v}"' for v in g))
+    for g in (["posix", "nt"], ["nt", "java"], ["posix", "java"]):
+        out.append(" and ".join(f'os_name != "{v}"' for v in g))
+        out.append(" or ".join(f'os_name == "{v}"' for v in g))
     return out
 
 
